@@ -338,6 +338,39 @@ def r6_loader_no_throw(ctx, prog):
     c17.r3_underflow(ctx, prog, rule_id='C16.R6', text='opening a token directory cannot throw on an unsigned wrap: sizes read from token files are guarded before they are subtracted from', floor=1, only=keep)
 
 
+def r7_enumeration(ctx, prog):
+    """A crash inside C_InitToken can leave a token directory that cannot be opened (created, token.object not yet written).  Such a directory must cost only itself: the
+    enumerations that open the store go on with the next entry after an entry that failed."""
+    r = ctx.rule('C16.R7', 'an unusable token directory / object file is skipped: the enumeration goes on with the next entry', floor=2, engine='E3 path enumeration')
+    jobs = [('ObjectStore::ObjectStore', 'accessToken', r'isValid(@\d+)?\((token|accessToken.*)\)', {re.compile(r'isValid(@\d+)?\(storeDir\)'): 1}),
+            ('OSToken::index', 'new ObjectFile', None, None)]
+    f = [g for g in prog.functions.values() if g['qname'] == 'ObjectStore::ObjectStore']
+    if len(f) != 1:
+        r.undecided('ObjectStore::ObjectStore', 'enumeration', 'constructor not found', file='', line=0)
+        return
+    f = f[0]
+    ctx.analysed(f)
+    for fails, label in ((1, 'every entry fails to open'), (0, 'every entry opens')):
+        cenv = {re.compile(r'isValid(@\d+)?\(storeDir\)'): 1, re.compile(r'isValid(@\d+)?\((token|accessToken.*)\)'): 1 - fails}
+        o = Outcomes(f, prog, cenv=cenv, record_calls={'accessToken', 'push_back'})
+        o.LOOP_ROUNDS = 2
+        o.CAP = 64
+        o.go()
+        r.paths += len(o.outcomes)
+        most = max([sum(1 for e in oc['events'] if e[0] == 'call' and e[1] == 'accessToken') for oc in o.outcomes] or [0])
+        kept = max([sum(1 for e in oc['events'] if e[0] == 'call' and e[1] == 'push_back' and e[2][0] == 'tokens') for oc in o.outcomes] or [0])
+        site = 'token enumeration, %s' % label
+        if most == 0:
+            r.undecided(f['qname'], site, 'no directory entry is opened on any path', file=f['file'], line=f['line'])
+        elif most < 2:
+            r.violation(f['qname'], site, 'after the first directory entry no further entry is opened on any path: %s' % (
+                'one token directory that cannot be opened (left by an interrupted C_InitToken) hides every token that comes after it in directory order' if fails else 'only one token is ever loaded'), file=f['file'], line=f['line'])
+        elif fails and kept:
+            r.violation(f['qname'], site, 'a token that failed to open is kept', file=f['file'], line=f['line'])
+        else:
+            r.ok(f['qname'], site, 'up to %d entries opened in %d unrolled rounds' % (most, 2), file=f['file'], line=f['line'])
+
+
 def run(ctx):
     prog = ctx.prog('ossl-file')
     r1_exact_reads(ctx, prog)
@@ -346,6 +379,7 @@ def run(ctx):
     r4_creation_order(ctx, prog)
     r5_single_durability_point(ctx, prog)
     r6_loader_no_throw(ctx, prog)
+    r7_enumeration(ctx, prog)
 
 
 MUTANTS = [
